@@ -460,7 +460,7 @@ func init() {
 
 	// S3: connection cut at every byte offset while a unary and a server-streaming call are in flight.
 	vexp.Register(&vexp.Scenario{
-		Name: "c04.S3.connection-lost-mid-call", Prop: "C04", MaxSteps: 200000,
+		Name: "c04.S3.connection-lost-mid-call", Prop: "C04", Also: []string{"C09"}, MaxSteps: 200000,
 		Bounds: func(thorough bool) vexp.Bounds {
 			if thorough {
 				return vexp.Bounds{P: 1, F: 0, E: 0}
@@ -478,7 +478,7 @@ func init() {
 			}
 			return out
 		},
-		Doc: "unary + server-streaming call in flight on one connection; the transport is cut / half-closed after EVERY byte offset of either direction: every call returns; a call that reports OK carries exactly the data its own handler invocation produced; nothing panics",
+		Doc: "unary + server-streaming call in flight on one connection; the transport is cut / half-closed after EVERY byte offset of either direction: every call returns; a call that reports OK carries exactly the data its own handler invocation produced; nothing panics; once the faulty connection is gone, follow-up calls (unary + streaming) on the on-demand client dial a healthy connection and succeed with their own results",
 		Body: func(x *vexp.Ctx) {
 			h := &c04server{invoked: map[int]int{}, streams: map[int][]string{}}
 			srv := &server{handler: HandleFunc(h.handle)}
